@@ -761,9 +761,11 @@ fn geometry_fault(rng: &mut Rng, s: &SizeInfo, faults: &mut Vec<Fault>) {
             _ => (n - rng.range(1, w)) as u32,
         } }),
         1 => {
-            let extra = match rng.below(3) {
+            let extra = match rng.below(5) {
                 0 => 1,
                 1 => w,
+                2 => h * rng.range(1, (w / h).max(1)), // a multiple of the height (rows/columns confused)
+                3 => w * rng.range(1, 3) + rng.range(0, 1),
                 _ => rng.range(1, 2 * w),
             };
             Fault::new("geo_extend", Op::GeoExtend { bits: (0..extra).map(|_| rng.bit()).collect() })
@@ -1004,7 +1006,7 @@ pub fn fabricate_stream(rng: &mut Rng) -> Vec<u8> {
             2 => {
                 out.push(235);
                 if rng.chance(3, 4) {
-                    out.push(*rng.pick(&[1u8, 128, 129, 0, 33, 100, 127, 235]));
+                    out.push(if rng.chance(1, 2) { rng.range(1, 128) as u8 } else { *rng.pick(&[1u8, 128, 129, 0, 33, 100, 127, 235]) });
                 }
             }
             3 => {
@@ -1086,7 +1088,30 @@ pub fn fabricate_stream(rng: &mut Rng) -> Vec<u8> {
                     out.push(rand255(v, p));
                 }
             }
-            11 => eci_bytes(rng, &mut out),
+            11 => {
+                if eci_heavy && rng.chance(1, 2) {
+                    // a multi-byte UTF-8 character whose bytes are torn apart by a charset switch
+                    let cp: u32 = match rng.below(3) {
+                        0 => rng.range(0x80, 0x7FF) as u32,
+                        1 => rng.range(0x800, 0xD7FF) as u32,
+                        _ => rng.range(0x10000, 0x10FFFF) as u32,
+                    };
+                    let ch = char::from_u32(cp).unwrap_or('\u{e4}');
+                    let mut buf = [0u8; 4];
+                    let bytes = ch.encode_utf8(&mut buf).as_bytes().to_vec();
+                    let cut = rng.range(1, bytes.len() - 1);
+                    for (bi, b) in bytes.iter().enumerate() {
+                        if bi == cut {
+                            out.push(241);
+                            out.push(*rng.pick(&[27u8, 27, 4, 12, 14, 28])); // ECI 26, 3, 11, 13, 27
+                        }
+                        out.push(235);
+                        out.push(b - 127);
+                    }
+                } else {
+                    eci_bytes(rng, &mut out)
+                }
+            }
             12 => out.push(*rng.pick(&[233u8, 234, 242, 243, 255, 0, 232, 236, 237])),
             _ => out.push(rng.byte()),
         }
